@@ -578,8 +578,9 @@ func scanUsePackages(exprs []*lisp.LVal) map[string][]string {
 				currentPkg = name
 			}
 		case "use-package":
-			if astutil.ArgCount(expr) >= 1 {
-				if pkgName := extractPkgNameArg(expr.Cells[1]); pkgName != "" {
+			// use-package takes any number of packages.
+			for _, arg := range expr.Cells[1:] {
+				if pkgName := extractPkgNameArg(arg); pkgName != "" {
 					result[currentPkg] = append(result[currentPkg], pkgName)
 				}
 			}
